@@ -718,6 +718,8 @@ func SpecContains(s string, sub string) bool { return false }
 //@   set emitted = emitted + len(unit.Commands) at call emitUnit
 //@   set bookkeeping = bookkeeping + ite(result, 1, 0) after call isBisyncControlCommand
 //@   set bookkeeping = bookkeeping + ite(result, len(cmds), 0) after call isBisyncMirroredTransaction
+//@   replay syncer_filterStripsMarker
+//@   assert at call filterCounterAdd: the_tools_own_bookkeeping_is_never_withheld_by_the_output_filters: !(len(argv) > 0 && SpecNsKey(string(argv[0])))
 //@   loop 1:
 //@     invariant decoder: decoder != nil && decoder.r != nil && decoder.offset >= 0
 //@     invariant every_accepted_command_is_emitted_or_bookkeeping: accepted == emitted + bookkeeping + ite(inTxn, len(txnCommands), 0)
